@@ -3,28 +3,21 @@ import MythVerif.Proofs.WsQueueTsoTac
 namespace MythVerif.WsqTso
 open MythVerif.Wsq
 
-set_option maxHeartbeats 4000000 in
 theorem t_tq0 (s s' : St) (p : Pid) : Inv s → s.tpc p = .tq0 → stepT s p = some s' → Inv s' := by
   intro h heq hs
   have hb := h.tbufE p (by simp [heq, mayBuf])
-  cases h
   simp only [stepT, heq, hb, viewTop_nil] at hs
   simp at hs; subst hs
-  simp only [ownerLocked, carry, resetting, ownerFlight] at *
-  tso_finish
+  tso_fastT h p []
 
-set_option maxHeartbeats 4000000 in
 theorem t_tq1 (s s' : St) (p : Pid) (t) : Inv s → s.tpc p = .tq1 t → stepT s p = some s' → Inv s' := by
   intro h heq hs
   have hb := h.tbufE p (by simp [heq, mayBuf])
-  cases h
   simp only [stepT, heq, hb, viewBase_nil] at hs
   split at hs
   all_goals (simp at hs; subst hs)
-  all_goals simp only [ownerLocked, carry, resetting, ownerFlight] at *
-  all_goals tso_finish
+  all_goals tso_fastT h p []
 
-set_option maxHeartbeats 4000000 in
 theorem t_tkl (s s' : St) (p : Pid) : Inv s → s.tpc p = .tkl → stepT s p = some s' → Inv s' := by
   intro h heq hs
   have hb := h.tbufE p (by simp [heq, mayBuf])
@@ -32,33 +25,25 @@ theorem t_tkl (s s' : St) (p : Pid) : Inv s → s.tpc p = .tkl → stepT s p = s
   simp at hs
   split at hs
   · simp at hs; subst hs
-    cases h
-    simp only [ownerLocked, carry, resetting, ownerFlight] at *
-    tso_finish
+    tso_fastT h p []
   · simp at hs; subst hs; exact h
 
-set_option maxHeartbeats 4000000 in
 theorem t_tk1 (s s' : St) (p : Pid) : Inv s → s.tpc p = .tk1 → stepT s p = some s' → Inv s' := by
   intro h heq hs
   have hb := h.tbufE p (by simp [heq, mayBuf])
-  cases h
   simp only [stepT, heq, hb, viewBase_nil] at hs
   simp at hs; subst hs
-  simp only [ownerLocked, carry, resetting, ownerFlight] at *
-  tso_finish
+  tso_fastT h p []
 
-set_option maxHeartbeats 4000000 in
 theorem t_tkf (s s' : St) (p : Pid) (b) : Inv s → s.tpc p = .tkf b → stepT s p = some s' → Inv s' := by
   intro h heq hs
   have hcfg := h.cfg
-  cases h
   simp only [stepT, heq, fenceOk, hcfg, code_takeFence] at hs
   split at hs
   · rename_i hb
     simp at hb
     simp at hs; subst hs
-    simp only [ownerLocked, carry, resetting, ownerFlight] at *
-    tso_finish
+    tso_fastT h p [tkf]
   · simp at hs
 
 end MythVerif.WsqTso
